@@ -2,7 +2,7 @@
 from tesim import acct, gen_acct
 
 PROP = "C05"
-PLAN = {"quick": 6000, "thorough": 600000}
+PLAN = {"quick": 12000, "thorough": 600000}
 TIMEOUT = 20
 CHUNK = 250
 RULE = ("seeded swarm of account histories as for C01 with extra weight on several margined contracts at once, shorts, "
